@@ -630,30 +630,33 @@ _PURE_BUILTINS = {"tuple", "list", "str", "len", "range", "zip", "enumerate", "d
                   "frozenset", "set", "bool"}
 
 
-def _is_const_value(v, depth=4):
+def _is_const_value(v, depth=4, funcs=None):
     """a value made of numbers and string literals only (nested tuples, a literal table)"""
     if v is None or is_unknown(v) or isinstance(v, str) or depth <= 0:
         return False
     if isinstance(v, tuple):
-        return all(_is_const_value(x, depth - 1) for x in v)
+        return all(_is_const_value(x, depth - 1, funcs) for x in v)
     if const_of(v) is not None:
         return True
+    if funcs and sym_of(v) in funcs:
+        return True          # the name of a module-level function (an entry of a dispatch table)
     sp = str_parts(v)
     if sp is not None:
         return len(sp) == 1 and isinstance(sp[0], str)
     u = app(v)
     if u is not None and u[0] in ("dict", "tuple") and not any(isinstance(x, str) for x in u[1]):
-        return all(_is_const_value(x, depth - 1) for x in u[1])
+        return all(_is_const_value(x, depth - 1, funcs) for x in u[1])
     return False
 
 
-def _folded_const(src, node, known):
+def _folded_const(src, node, known, funcs=None):
     """value of a module-level expression that reads nothing but literals, constants bound earlier, its own comprehension variables and pure
     builtins - evaluated like function code (comprehensions over literals are expanded, f-strings of integer constants are strings); None
     when the expression reads anything else or does not come out as a constant"""
     own = {x.id for x in ast.walk(node) if isinstance(x, ast.Name) and isinstance(x.ctx, ast.Store)}
+    funcs = set(funcs or ())
     for x in ast.walk(node):
-        if isinstance(x, ast.Name) and isinstance(x.ctx, ast.Load) and x.id not in known and x.id not in own and x.id not in _PURE_BUILTINS:
+        if isinstance(x, ast.Name) and isinstance(x.ctx, ast.Load) and x.id not in known and x.id not in own and x.id not in _PURE_BUILTINS and x.id not in funcs:
             return None
         if isinstance(x, (ast.Lambda, ast.Await, ast.Yield, ast.YieldFrom, ast.NamedExpr, ast.Starred)):
             return None
@@ -669,7 +672,7 @@ def _folded_const(src, node, known):
             v = tuple(wrap(x) if isinstance(x, tuple) else x for x in v)
         except Unsupported:
             return None
-    return v if _is_const_value(v) else None
+    return v if _is_const_value(v, funcs=funcs) else None
 
 
 def _module_consts(src, rel):
@@ -701,7 +704,7 @@ def _module_consts(src, rel):
             if not lit:
                 # (pass 5) a constant *computed* from literals and earlier constants by pure builtins: a comprehension over a literal
                 # (`[f"b={b}" for b in (4, 8, 12)]`), tuple(...) / dict(zip(...)) / "sep".join(...) / str.format of those
-                v = _folded_const(src, st.value, out)
+                v = _folded_const(src, st.value, out, getattr(m, "funcs", {}))
                 if v is not None:
                     out[st.targets[0].id] = v
                     continue
@@ -755,6 +758,14 @@ class XEval(AutoEvaluator):
             for n in ast.walk(fn):
                 if isinstance(n, ast.Global):
                     self.locals_ -= set(n.names)
+            # (pass 5) `X[j], Y[j] = f(...)`: subscript stores inside an unpacking target make X and Y arrays like plain subscript stores do
+            for n in ast.walk(fn):
+                if isinstance(n, ast.Assign):
+                    for t in n.targets:
+                        if isinstance(t, (ast.Tuple, ast.List)):
+                            for e_ in ast.walk(t):
+                                if isinstance(e_, ast.Subscript) and isinstance(e_.value, ast.Name) and isinstance(e_.ctx, ast.Store):
+                                    self.buffers.add(e_.value.id)
             # (pass 5) a local that is only ever bound to a dict display / dict(...) is a table of values, not an array: `t[key] = v` updates the table
             dict_bound, other_bound = set(), set()
             for n in ast.walk(fn):
@@ -1134,6 +1145,18 @@ class XEval(AutoEvaluator):
             return self._comp(node)
         if isinstance(node, (ast.List, ast.Tuple)) and len(node.elts) == 1 and isinstance(node.elts[0], ast.Starred):
             return self._ev(node.elts[0].value)                      # [*xs]: the elements of xs
+        if isinstance(node, (ast.List, ast.Tuple)) and any(isinstance(e, ast.Starred) for e in node.elts) and isinstance(node.ctx, ast.Load):
+            # (pass 5) (a, b, *rows): starred values that are sequences of known length are spliced in
+            out = []
+            for e in node.elts:
+                if isinstance(e, ast.Starred):
+                    x = untuple(self._ev(e.value))
+                    if not isinstance(x, tuple):
+                        return x if is_unknown(x) else Unknown("starred value of unknown length in a display")
+                    out += list(x)
+                else:
+                    out.append(self._ev(e))
+            return tuple(out)
         if isinstance(node, ast.Lambda) and not node.args.vararg and not node.args.kwarg and not node.args.kwonlyargs:
             return F.sym(self._lambda(node, None))
         if isinstance(node, ast.DictComp):
@@ -1305,6 +1328,8 @@ class XEval(AutoEvaluator):
         s = sym_of(v)
         if s is not None and s in self.tr.inits and self._rank(s) == 2:
             return F.fn("transposed", v)
+        if head(v) in self.RAINFLOW:
+            return F.fn("transposed", v)          # amp, mean, count = table.T: the columns of the cycle table
         u = app(v, "transposed") if not isinstance(v, (tuple, str)) and v is not None and not is_unknown(v) else None
         if u is not None and len(u[1]) == 1 and not isinstance(u[1][0], str):
             return u[1][0]
@@ -1587,12 +1612,35 @@ class XEval(AutoEvaluator):
     def _resolve_callee(self, node):
         """f = np.digitize; f(x, b)  /  lo = operator.le if right else operator.lt; lo(a, b)  /  f = partial(np.digitize, right=right); f(x, b):
         the call with the callee (and the partial's arguments) spelled out; the node itself otherwise"""
+        if isinstance(node.func, (ast.Subscript, ast.IfExp)) and self.inline:
+            # (pass 5) TABLE[key](...) with a table of module functions: the call of the function selected
+            try:
+                fv = self.ev(node.func)
+            except Unsupported:
+                fv = None
+            fs = sym_of(fv) if fv is not None and not isinstance(fv, tuple) else None
+            if fs is not None and fs in self.inline and fs not in self.env:
+                new = ast.Call(func=ast.copy_location(ast.Name(id=fs, ctx=ast.Load()), node), args=node.args, keywords=node.keywords)
+                ast.copy_location(new, node)
+                for attr in ("_vparent", "_vmod"):
+                    if hasattr(node, attr):
+                        setattr(new, attr, getattr(node, attr))
+                return new
+            return node
         if not isinstance(node.func, ast.Name) or node.func.id not in self.env or node.func.id in self.buffers:
             return node
         v = self.env[node.func.id]
         if v is None or is_unknown(v) or isinstance(v, tuple):
             return node
         s = sym_of(v)
+        if s is not None and self.inline and s in self.inline and s not in self.env and s.isidentifier() and s != node.func.id:
+            # (pass 5) a local bound to a module function (chosen by a conditional expression the facts decide): the call of that function
+            new = ast.Call(func=ast.copy_location(ast.Name(id=s, ctx=ast.Load()), node), args=node.args, keywords=node.keywords)
+            ast.copy_location(new, node)
+            for attr in ("_vparent", "_vmod"):
+                if hasattr(node, attr):
+                    setattr(new, attr, getattr(node, attr))
+            return new
         if s is not None and "." in s and not s.startswith("<") and all(p.isidentifier() for p in s.split(".")) and s.split(".")[0] not in self.env:
             new = ast.Call(func=ast.parse(s, mode="eval").body, args=node.args, keywords=node.keywords)
         else:
@@ -1689,7 +1737,7 @@ class XEval(AutoEvaluator):
             v = self.ev(inner)
             self._store_out(next(k.value for k in node.keywords if k.arg == "out"), v, node)
             return v
-        if isinstance(node.func, ast.Attribute) and node.func.attr == "to_numpy" and not nargs and not kws:
+        if isinstance(node.func, ast.Attribute) and node.func.attr in ("to_numpy", "tolist") and not nargs and not kws:
             return self.ev(node.func.value)                     # the array behind a Series / DataFrame
         if isinstance(node.func, ast.Attribute) and node.func.attr == "join" and nargs == 1 and not kws:
             sep, seq = str_parts(self.ev(node.func.value)), untuple(self.ev(node.args[0]))
